@@ -92,13 +92,16 @@ def _prune_cache(keep):
         shutil.rmtree(p, ignore_errors=True)
 
 
-def program_facts(features=None):
-    """Directory with the facts of programs/whirlpool for the current working tree."""
+def program_facts(features=None, repo=None, scratch_out=None):
+    """Directory with the facts of programs/whirlpool for the current working tree.
+    `repo` analyses another checkout (the checker's self-test uses a scratch copy); `scratch_out`
+    writes the facts there instead of the content-addressed cache."""
     ensure_driver()
+    REPO = repo or globals()["REPO"]
     feat = ",".join(features) if features else ""
     fp = fingerprint([os.path.join(REPO, "programs"), os.path.join(REPO, "Cargo.toml"),
                       os.path.join(REPO, "Cargo.lock")], extra="program:" + feat + ":" + EXTERN)
-    out_root = os.path.join(CACHE, "facts", fp)
+    out_root = scratch_out or os.path.join(CACHE, "facts", fp)
     out = os.path.join(out_root, "whirlpool")
     done = os.path.join(out, "DONE")
     if os.path.exists(done):
@@ -146,19 +149,36 @@ def program_facts(features=None):
             raise AnalysisIncomplete("the fact extractor did not run (no fresh meta.json)")
         with open(done, "w") as fh:
             fh.write("%.1f\n" % (time.time() - t0))
-        _prune_cache({fp})
+        if not scratch_out:
+            _prune_cache({fp})
         return out
     finally:
         fcntl.flock(lock, fcntl.LOCK_UN)
         lock.close()
 
 
-def sdk_facts():
+def _sdk_view_for(repo, scratch):
+    """A copy of the sdkview harness whose paths point into another checkout."""
+    src = os.path.join(VERIF, "sdkview")
+    dst = os.path.join(scratch, "sdkview")
+    if os.path.isdir(dst):
+        shutil.rmtree(dst)
+    shutil.copytree(src, dst, ignore=shutil.ignore_patterns("target"))
+    p = os.path.join(dst, "Cargo.toml")
+    with open(p) as fh:
+        t = fh.read()
+    with open(p, "w") as fh:
+        fh.write(t.replace('"/repo/', '"%s/' % repo.rstrip("/")))
+    return dst
+
+
+def sdk_facts(repo=None, scratch_out=None):
     """Facts of rust-sdk/core through the sdkview harness package."""
     ensure_driver()
-    view = os.path.join(VERIF, "sdkview")
+    REPO = repo or globals()["REPO"]
+    view = os.path.join(VERIF, "sdkview") if not repo else _sdk_view_for(repo, os.path.dirname(scratch_out.rstrip("/")))
     fp = fingerprint([os.path.join(REPO, "rust-sdk", "core"), os.path.join(REPO, "rust-sdk", "macros"), view], extra="sdk")
-    out_root = os.path.join(CACHE, "facts", "sdk-" + fp)
+    out_root = scratch_out or os.path.join(CACHE, "facts", "sdk-" + fp)
     out = os.path.join(out_root, "orca_whirlpools_core")
     done = os.path.join(out, "DONE")
     if os.path.exists(done):
